@@ -74,7 +74,36 @@ def abort_everywhere():
         st = mgr.get_state(ch_d.Handle); st.OperatingHours = 5; yield
         mgr.remove_descriptor(mh[-1]); yield
 
-    kinds = [('metric', mdib.metric_state_transaction, metric_steps), ('alert', mdib.alert_state_transaction, alert_steps),
+    # entity interface: a committed context state is deleted / a new one written through write_entity, then abort
+    with mdib.context_state_transaction() as mgr:
+        mgr.mk_context_state(ctx_descr[0], 'verif_ctx_0', set_associated=True)
+
+    def context_entity_steps(mgr):
+        ent = mdib.entities.by_handle(ctx_descr[0]); yield
+        hs = [h for h in ent.states if h == 'verif_ctx_0']
+        if not hs:      # an earlier aborted round already lost the state (reported there)
+            return
+        del ent.states[hs[0]]
+        mgr.write_entity(ent, [hs[0]]); yield
+        ns = ent.new_state('verif_ctx_2')
+        ns.ContextAssociation = pm_types.ContextAssociation.ASSOCIATED
+        mgr.write_entity(ent, ['verif_ctx_2']); yield
+
+    def metric_entity_steps(mgr):
+        ent = mdib.entities.by_handle(mh[0]); yield
+        ent.state.ActivationState = pm_types.ComponentActivation.STANDBY
+        mgr.write_entity(ent); yield
+
+    def descriptor_entity_steps(mgr):
+        ent = mdib.entities.by_handle(mh[1]); yield
+        ent.descriptor.SafetyClassification = pm_types.SafetyClassification.MED_C
+        mgr.write_entity(ent); yield
+        mgr.remove_entity(mdib.entities.by_handle(mh[-1])); yield
+
+    kinds = [('context-entity', mdib.context_state_transaction, context_entity_steps),
+             ('metric-entity', mdib.metric_state_transaction, metric_entity_steps),
+             ('descriptor-entity', mdib.descriptor_transaction, descriptor_entity_steps),
+             ('metric', mdib.metric_state_transaction, metric_steps), ('alert', mdib.alert_state_transaction, alert_steps),
              ('component', mdib.component_state_transaction, component_steps),
              ('operational', mdib.operational_state_transaction, operational_steps),
              ('context', mdib.context_state_transaction, context_steps),
